@@ -16,9 +16,10 @@ import (
 // Dest is something a client can address: a socket of the world by IP, or a name that the owned
 // resolver maps to one of the sockets.
 type Dest struct {
-	Index int
-	Sock  int    // index of the socket that must receive datagrams addressed to this dest
-	Name  string // non-empty: addressed by name
+	Index   int
+	Sock    int    // index of the target socket (IP) this dest lives on
+	Name    string // non-empty: addressed by name
+	AltPort bool   // addressed with the port of the target's second ("alt") socket: same IP / same name, other port
 }
 
 // Arrival is one datagram seen at a harness-owned endpoint (target socket or upstream proxy).
@@ -47,6 +48,7 @@ type World struct {
 	last     map[uint16]Arrival // last arrival per session
 	replyOff atomic.Bool
 	altEvery atomic.Int32 // every n-th reply is sent from the alt socket (0 = never)
+	dropMode atomic.Int32 // see SetDropFirst
 	nreply   atomic.Int64
 	wg       sync.WaitGroup
 	closed   atomic.Bool
@@ -159,18 +161,61 @@ func (w *World) AddDest(sock int, name string) int {
 	return d.Index
 }
 
+// AddDestAltPort registers a destination that names the same IP (or the same name) as a target but
+// with the port of that target's alt socket.
+func (w *World) AddDestAltPort(sock int, name string) int {
+	d := Dest{Index: len(w.Dests), Sock: sock, Name: name, AltPort: true}
+	w.Dests = append(w.Dests, d)
+	return d.Index
+}
+
+// DestSock is the index of the socket that must receive datagrams addressed to dest i.
+func (w *World) DestSock(i int) int {
+	d := w.Dests[i]
+	if d.AltPort {
+		return w.NSock() + d.Sock
+	}
+	return d.Sock
+}
+
 // DestAddr is the address a client puts into its datagrams for dest i.
 func (w *World) DestAddr(i int) conn.Addr {
 	d := w.Dests[i]
-	if d.Name != "" {
-		return conn.MustAddrFromDomainPort(d.Name, w.Port)
+	port := w.Port
+	if d.AltPort {
+		port = w.SockAddr(w.NSock() + d.Sock).Port()
 	}
-	return conn.AddrFromIPPort(netip.AddrPortFrom(w.IPs[d.Sock], w.Port))
+	if d.Name != "" {
+		return conn.MustAddrFromDomainPort(d.Name, port)
+	}
+	return conn.AddrFromIPPort(netip.AddrPortFrom(w.IPs[d.Sock], port))
 }
 
 // SetReplies switches echoing on or off; SetAltEvery makes every n-th echo come from the alt socket.
 func (w *World) SetReplies(on bool) { w.replyOff.Store(!on) }
 func (w *World) SetAltEvery(n int)  { w.altEvery.Store(int32(n)) }
+
+// Drop-first modes: before every genuine echo the destination first sends a reply that the relay has
+// to drop, back to back, so that both tend to sit in one recvmmsg batch of the session's downlink.
+const (
+	DropNone    = 0
+	DropBig1470 = 1 // 1470-byte payload: fits the relay's receive buffer but not the client-side packet once a header is added
+	DropBig1480 = 2 // 1480-byte payload: larger than the relay's receive buffer (truncated on receipt)
+	DropAltSrc  = 3 // ordinary reply from the alt socket (a non-target source; dropped by a tunnel with tunnelUDPTargetOnly)
+)
+
+// SetDropFirst selects the drop-first mode.
+func (w *World) SetDropFirst(mode int) { w.dropMode.Store(int32(mode)) }
+
+// extraReply builds the payload of the reply that precedes the genuine echo.
+func extraReply(tag Tag, resp uint16, total int) []byte {
+	t := ReplyTo(tag, resp)
+	t.Kind = KindReplyExtra
+	if total > PayloadMinLen {
+		t.Fill = uint16(total - PayloadMinLen)
+	}
+	return EncodePayload(nil, t)
+}
 
 func (w *World) record(a Arrival) {
 	w.mu.Lock()
@@ -204,11 +249,7 @@ func (w *World) serveSock(i int, c *net.UDPConn) {
 			return
 		}
 		from = netip.AddrPortFrom(from.Addr().Unmap(), from.Port())
-		if i >= w.NSock() {
-			// alt sockets only send; anything arriving here is unexpected and recorded
-			w.record(Arrival{Sock: i, From: from, Err: errors.New("datagram at an alt socket"), Len: n})
-			continue
-		}
+		// alt sockets are destinations of their own (same IP, other port) for dests with AltPort
 		tag, derr := DecodePayload(buf[:n])
 		w.record(Arrival{Sock: i, From: from, Tag: tag, Err: derr, Len: n})
 		if derr != nil || tag.Kind != KindRequest || w.replyOff.Load() {
@@ -216,9 +257,19 @@ func (w *World) serveSock(i int, c *net.UDPConn) {
 		}
 		out := c
 		resp := uint16(i)
-		if k := w.altEvery.Load(); k > 0 && w.nreply.Add(1)%int64(k) == 0 {
-			out = w.socks[w.NSock()+i]
-			resp = uint16(w.NSock() + i)
+		if i < w.NSock() {
+			if k := w.altEvery.Load(); k > 0 && w.nreply.Add(1)%int64(k) == 0 {
+				out = w.socks[w.NSock()+i]
+				resp = uint16(w.NSock() + i)
+			}
+			switch w.dropMode.Load() {
+			case DropBig1470:
+				c.WriteToUDPAddrPort(extraReply(tag, uint16(i), 1470), from)
+			case DropBig1480:
+				c.WriteToUDPAddrPort(extraReply(tag, uint16(i), 1480), from)
+			case DropAltSrc:
+				w.socks[w.NSock()+i].WriteToUDPAddrPort(extraReply(tag, uint16(w.NSock()+i), 0), from)
+			}
 		}
 		out.WriteToUDPAddrPort(EncodePayload(nil, ReplyTo(tag, resp)), from)
 	}
@@ -387,9 +438,23 @@ func (u *Upstream) reply(w *World, a Arrival) error {
 	if int(a.Tag.Target) >= len(w.Dests) {
 		return errors.New("no such dest")
 	}
-	sock := w.Dests[a.Tag.Target].Sock
-	if k := w.altEvery.Load(); k > 0 && w.nreply.Add(1)%int64(k) == 0 {
-		sock += w.NSock()
+	sock := w.DestSock(int(a.Tag.Target))
+	if sock < w.NSock() {
+		if k := w.altEvery.Load(); k > 0 && w.nreply.Add(1)%int64(k) == 0 {
+			sock += w.NSock()
+		}
+		total := 0
+		switch w.dropMode.Load() {
+		case DropBig1470:
+			total = 1470
+		case DropBig1480:
+			total = 1480
+		}
+		if total > 0 {
+			if pkt, err := u.codec.Pack(a.Key, w.SockAddr(sock%w.NSock()), extraReply(a.Tag, uint16(sock%w.NSock()), total)); err == nil {
+				u.udp.WriteToUDPAddrPort(pkt, a.From)
+			}
+		}
 	}
 	pkt, err := u.codec.Pack(a.Key, w.SockAddr(sock), EncodePayload(nil, ReplyTo(a.Tag, uint16(sock))))
 	if err != nil {
